@@ -1053,7 +1053,13 @@ func unparseLiteral(l b6.AnyLiteral) (string, bool) {
 	case b6.IntExpression:
 		return fmt.Sprintf("%d", int(l)), true
 	case b6.FloatExpression:
-		return fmt.Sprintf("%.2f", float64(l)), true
+		// Shortest representation that parses back to the same value, with a
+		// decimal point so that it's lexed as a float rather than an int
+		s := strconv.FormatFloat(float64(l), 'f', -1, 64)
+		if !strings.Contains(s, ".") {
+			s += ".0"
+		}
+		return s, true
 	case b6.TagExpression:
 		return UnparseTag(b6.Tag{Key: l.Key, Value: l.Value}), true
 	case b6.FeatureIDExpression:
